@@ -81,18 +81,21 @@ func (r *Run) deferShape() {
 				}
 				for _, s := range blk.List {
 					gs, ok := s.(*ast.GoStmt)
-					if !ok || len(gs.Call.Args) != 1 {
-						continue
-					}
-					id, ok := gs.Call.Args[0].(*ast.Ident)
 					if !ok {
 						continue
 					}
-					all, bad := elementStores(blk, id.Name, false)
-					if len(all) == 0 {
-						continue
+					// every argument of the go statement that is a vector filled element by element in this block
+					for _, ga := range gs.Call.Args {
+						id, ok := ga.(*ast.Ident)
+						if !ok {
+							continue
+						}
+						all, bad := elementStores(blk, id.Name, false)
+						if len(all) == 0 {
+							continue
+						}
+						r.frameObl(fmt.Sprintf("interp.%s/go:args-copied[%s]", l.Gen, types.ExprString(gs.Call.Fun)), "every argument handed to a goroutine start is a fresh copy (reflect.New(t).Elem() then Set)", len(bad) == 0, strings.Join(bad, "; "))
 					}
-					r.frameObl(fmt.Sprintf("interp.%s/go:args-copied[%s]", l.Gen, types.ExprString(gs.Call.Fun)), "every argument handed to a goroutine start is a fresh copy (reflect.New(t).Elem() then Set)", len(bad) == 0, strings.Join(bad, "; "))
 				}
 				return true
 			})
